@@ -1237,3 +1237,26 @@ Proof.
         rewrite F. exact Q.
     + intros ->. simpl. auto.
 Qed.
+
+(* ------------------------------------------------------------------ a hang-up reported together with readable input *)
+Lemma run_from_acc hm h : forall x acc, run_from hm x acc h = (fst (run_from hm x [] h), acc ++ snd (run_from hm x [] h)).
+Proof.
+  induction h as [|i h IH]; intros x acc; simpl. rewrite app_nil_r; auto.
+  destruct (step hm x i) as [x' o]. rewrite (IH x' (acc ++ o)), (IH x' o). simpl. rewrite app_assoc. auto.
+Qed.
+
+Lemma pemit_no_hangup s eout ehup r w : forallb (fun i => negb (is_hangup_stim i)) (pemit s true eout ehup r w) = true.
+Proof. unfold pemit. rewrite andb_false_r. destruct eout; reflexivity. Qed.
+
+Theorem hangup_after_reads hm h s eout ehup d w : NoDup (accepted h) ->
+  In s (clients (fst (run hm h))) -> d <> [] ->
+  forallb (fun i => negb (is_hangup_stim i)) (pemit s true eout ehup (RData d) w) = true /\
+  exists post, snd (run_from hm (fst (run hm h)) [] (pemit s true eout ehup (RData d) w))
+               = OCall (CRecv s (RData d)) :: OEv (ERead s d) :: post.
+Proof.
+  intros ND I D. split. apply pemit_no_hangup.
+  unfold pemit. rewrite andb_false_r. cbn [app run_from step].
+  unfold on_read. rewrite (mem_true _ _ I). cbn [negb].
+  destruct d as [|b d]; [congruence|].
+  rewrite run_from_acc. simpl. eexists. reflexivity.
+Qed.
